@@ -23,6 +23,7 @@ NOT_DECIDED = ["QList::insert itself"]
 
 SP = "QtLogger::SortedPipeline"
 RANK = ["AttrHandler", "Filter", "Formatter", "Sink", "Pipeline"]
+_rk = lambda x: RANK.index(x) if x in RANK else len(RANK)
 METHOD_CLASS = {"appendAttrHandler": "AttrHandler", "appendFilter": "Filter", "setFormatter": "Formatter", "appendSink": "Sink", "appendPipeline": "Pipeline"}
 CLEAR_CLASS = {"clearAttrHandlers": "AttrHandler", "clearFilters": "Filter", "clearFormatters": "Formatter", "clearSinks": "Sink", "clearPipelines": "Pipeline"}
 
@@ -111,6 +112,8 @@ def run(ck):
         plain = [n for n in fn.calls() if name_is(n.get("callee"), ("QtLogger::Pipeline::append",)) or (name_is(n.get("callee"), "append") and skip_copies(n.get("obj")).get("k") == "this")]
         isnull = lambda n: is_call(n, "isNull") and is_ref_to(skip_copies(n).get("obj"), pdecl)
         if len(prim) + len(plain) != 1:
+            if cached_position(ck, fn, m):
+                continue
             verdict = sort_based_insertion(ck, fn, m, en)
             if verdict is None:
                 ck.ob("C17-O2", sitestr(fn), None, "%s uses %d primitives and %d plain appends" % (m, len(prim), len(plain)))
@@ -118,7 +121,7 @@ def run(ck):
         if plain:
             ok = not gt
             ck.ob("C17-O2", sitestr(fn, plain[0]), ok, "%s: plain append is correct for the top class %s" % (m, K) if ok else
-                  "%s appends at the end although %s outrank %s: e.g. appendPipeline; %s gives P,%s" % (m, sorted(gt, key=RANK.index), K, m, K[0]), key="%s|plain-append" % m)
+                  "%s appends at the end although %s outrank %s: e.g. appendPipeline; %s gives P,%s" % (m, sorted(gt, key=_rk), K, m, K[0]), key="%s|plain-append" % m)
             okarg = is_ref_to(unwrap_ptr(plain[0]["args"][0]), pdecl)
             ck.ob("C17-O2", sitestr(fn, plain[0]), okarg, "%s appends its argument" % m, key="%s|arg" % m)
             continue
@@ -143,16 +146,16 @@ def run(ck):
         L, R = sets
         if left:
             ok = (L == le) and (R <= gt)
-            why = "near-left with L=%s R=%s" % (sorted(L, key=RANK.index), sorted(R, key=RANK.index))
+            why = "near-left with L=%s R=%s" % (sorted(L, key=_rk), sorted(R, key=_rk))
             if L != le:
-                why += "; L must be exactly the classes of rank <= %s %s" % (K, sorted(le, key=RANK.index))
+                why += "; L must be exactly the classes of rank <= %s %s" % (K, sorted(le, key=_rk))
             if not R <= gt:
                 why += "; R contains a class that does not outrank %s" % K
         else:
             ok = (R == gt) and (L <= le)
-            why = "near-right with L=%s R=%s" % (sorted(L, key=RANK.index), sorted(R, key=RANK.index))
+            why = "near-right with L=%s R=%s" % (sorted(L, key=_rk), sorted(R, key=_rk))
             if R != gt:
-                why += "; R must be exactly the classes outranking %s %s (a missing class lets the handler land behind it)" % (K, sorted(gt, key=RANK.index))
+                why += "; R must be exactly the classes outranking %s %s (a missing class lets the handler land behind it)" % (K, sorted(gt, key=_rk))
             if not L <= le:
                 why += "; L contains a class that outranks %s" % K
         ck.ob("C17-O2", sitestr(fn, c), ok, "%s: %s places %s after every rank <= %s and before every rank > %s" % (m, why, K, K, K) if ok else "%s: %s" % (m, why), key="%s|class-sets" % m)
@@ -410,3 +413,46 @@ def sort_based_insertion(ck, fn, m, en):
               "%s: stable_sort comparator / enumerator order not recognised" % where, key="%s|stable-sort" % m)
         return ok if ok else None
     return None
+
+
+LIST_MUTATORS = ("insert", "append", "prepend", "push_back", "push_front", "remove", "removeAt", "removeAll", "removeOne", "removeFirst", "removeLast", "erase", "clear", "takeAt", "takeFirst",
+                 "takeLast", "swap", "move", "swapItemsAt", "operator=", "operator<<", "operator+=", "resize", "pop_back", "pop_front")
+
+
+def cached_position(ck, fn, m):
+    """typed insertion at a position kept in a data member (a count of the handlers of some class): the member is right only as long as
+    *every* function that changes the handler list keeps it up to date.  Returns True when the idiom was recognised (obligations
+    emitted), False otherwise."""
+    F = ck.facts
+    ins = [n for n in fn.calls() if n.get("ck") == "member" and name_is(n.get("callee"), ("insert",)) and len(n.get("args", [])) >= 2
+           and (is_call(skip_copies(n.get("obj")), ("QtLogger::Pipeline::handlers", "handlers")) or is_this_field(skip_copies(n.get("obj")), "QtLogger::Pipeline::m_handlers"))]
+    if len(ins) != 1:
+        return False
+    pos = skip_copies(ins[0]["args"][0])
+    flds = [x for x in walk(pos) if x.get("k") == "member" and x.get("dk") == "field" and skip_copies(x.get("base") or {}).get("k") == "this"]
+    if len(flds) != 1:
+        return False
+    fld = flds[0].get("name")
+    ck.touch(fn)
+    # every function of the pipeline classes that changes the list
+    stale = []
+    n_mut = 0
+    for f in sorted(F.fns.values(), key=lambda f: (f.file, f.line, f.sig)):
+        if f.body is None or strip_tmpl(f.cls or "") not in ("QtLogger::Pipeline", "QtLogger::SortedPipeline") or f.d.get("kind") in ("ctor", "dtor") or f.id == fn.id:
+            continue
+        muts = [n for n in f.calls() if (n.get("callee") or "").split("::")[-1] in LIST_MUTATORS and isinstance(n.get("obj") or (n.get("args") or [None])[0], dict)
+                and (is_call(skip_copies(n.get("obj") or n["args"][0]), ("QtLogger::Pipeline::handlers", "handlers")) or is_this_field(skip_copies(n.get("obj") or n["args"][0]), "QtLogger::Pipeline::m_handlers"))]
+        if not muts:
+            continue
+        n_mut += 1
+        writes = [x for x in f.all_nodes() if x.get("k") == "member" and x.get("name") == fld and write_kind(f, x)]
+        # a mutator that delegates to another mutator which keeps the member is fine only if it is that other function that edits the list
+        if not writes:
+            stale.append((f, muts[0]))
+    stale.sort(key=lambda x: 0 if (x[1].get("callee") or "").split("::")[-1] in ("remove", "removeAt", "removeAll", "erase", "clear", "takeAt", "removeFirst", "removeLast") else 1)
+    ck.ob("C17-O2", sitestr(fn, ins[0]), False if stale else None,
+          "%s inserts at the position kept in %s; %s changes the handler list without updating it (%s): after that call the position is stale and the next %s lands in the wrong class block" %
+          (m, fld.split("::")[-1], stale[0][0].name.split("QtLogger::")[-1], describe(stale[0][1])[:40], m) if stale else
+          "%s inserts at the position kept in %s, which all %d list-changing functions write: whether they keep it equal to the block length is not decided here" % (m, fld.split("::")[-1], n_mut),
+          key="%s|cached-position" % m)
+    return True
